@@ -2,6 +2,9 @@
 //!   <bin> replay <model> <cases.ndjson> --summary <out.json>
 //!   <bin> record <model> --seed S --out <trace.ndjson> --summary <out.json>
 
+mod failover;
+mod fake;
+
 use h_common::{tool_error, Args};
 
 fn main() {
@@ -10,6 +13,8 @@ fn main() {
     let model = args.pos(1).to_string();
     h_common::quiet_panics();
     match (mode.as_str(), model.as_str()) {
+        ("replay", "failover") => failover::replay(&args),
+        ("record", "failover") => failover::record(&args),
         _ => tool_error(&format!("unknown mode/model {mode}/{model}")),
     }
 }
